@@ -247,7 +247,7 @@ pub fn configs(tier: Tier, judge: u32, liveness: bool) -> Vec<OutCfg> {
         }
         // two send futures of one task created before either is polled (join): the window must hold for them too
         if !liveness {
-            for (cap, senders) in [(1u16, vec![SK::Q1Join]), (1, vec![SK::Q1Join, SK::Q1]), (2, vec![SK::Q1Join, SK::Q1Join])] {
+            for (cap, senders) in [(1u16, vec![SK::Q1Join]), (1, vec![SK::Q1Join, SK::Q1]), (2, vec![SK::Q1Join, SK::Q1Join]), (1, vec![SK::StreamJoin]), (1, vec![SK::StreamJoin, SK::Q1])] {
                 v.push(OutCfg {
                     ep: ep_for(EpCfg::new(ver, role), cap, false),
                     cap,
